@@ -34,6 +34,9 @@ type C16Case struct {
 	DL        byte // DLSettings byte (bit 7 = OptNeg)
 	RxDelay   int
 	CFList    []byte
+	// CFListSpelling selects how an absent CFList is written in the JSON body: "" = member
+	// omitted, "null" = "CFList":null, "empty" = "CFList":"" (all three mean: no CFList)
+	CFListSpelling string
 	JoinNonce int
 	NSKEK     []byte // nil = no KEK for the network server
 	ASKEK     []byte
@@ -94,6 +97,10 @@ func (k C16Case) Body() []byte {
 	}
 	if k.CFList != nil {
 		m["CFList"] = hex.EncodeToString(k.CFList)
+	} else if k.CFListSpelling == "null" {
+		m["CFList"] = nil
+	} else if k.CFListSpelling == "empty" {
+		m["CFList"] = ""
 	}
 	b, _ := json.Marshal(m)
 	return b
@@ -380,6 +387,41 @@ func runC16(r *engine.Run) {
 			k.NwkKey, k.AppKey, k.DevEUI, k.JoinEUI = C16KeysNwk[1], C16KeysApp[1], C16EUIs[1], C16EUIs[2]
 		}
 		judge(c, k, C16Handler([]C16Case{k}, nil))
+	})
+	// ---- B2: CFList contents (every zero/non-zero pattern of the six channel masks; channel
+	// lists with extreme frequency codes) and the three JSON spellings of "no CFList"
+	r.PartDims("B2/cflist-contents", []string{"mask pattern:64 + channel-list pattern:32 + absent spellings:3", "kind{join,rejoin0}", "optneg"}, (64+32+3)*2*2, func(c *engine.Case) {
+		i := int(c.Index % 99)
+		k := baseCase()
+		k.Kind = int(c.Index/99) % 2
+		if c.Index/198 == 1 {
+			k.DL |= 0x80
+		}
+		switch {
+		case i < 64:
+			cf := make([]byte, 16)
+			cf[15] = 1
+			for m := 0; m < 6; m++ {
+				if i&(1<<uint(m)) != 0 {
+					cf[2*m], cf[2*m+1] = byte(0x11*(m+1)), byte(0x80>>uint(m))
+				}
+			}
+			k.CFList = cf
+		case i < 96:
+			cf := make([]byte, 16)
+			for slot := 0; slot < 5; slot++ {
+				v := uint32(8671000 + slot*2000)
+				if (i-64)&(1<<uint(slot)) != 0 {
+					v = []uint32{0xFFFFFF, 1, 0, 0x800000, 0xFFFFFE}[slot]
+				}
+				cf[3*slot], cf[3*slot+1], cf[3*slot+2] = byte(v), byte(v>>8), byte(v>>16)
+			}
+			k.CFList = cf
+		default:
+			k.CFListSpelling = []string{"", "null", "empty"}[i-96]
+		}
+		judge(c, k, C16Handler([]C16Case{k}, nil))
+		c.Outcome("cflist-contents")
 	})
 	// ---- C: KEK configurations
 	spC := (&engine.Space{}).Dim("ns kek{none,16,32}", 3).Dim("as kek{none,16}", 2).Dim("optneg", 2).Dim("kind", 4)
